@@ -189,7 +189,10 @@ func flushStats() {
 }
 
 // Main is the TestMain of every property package.
-func Main(m *testing.M, id string) {
+func Main(m *testing.M, id string) { MainWith(m, id, nil) }
+
+// MainWith is Main with a cleanup function run before the process exits.
+func MainWith(m *testing.M, id string, cleanup func()) {
 	st.Property = id
 	st.start = time.Now()
 	loadKnown()
@@ -198,6 +201,9 @@ func Main(m *testing.M, id string) {
 		st.Failed = true
 	}
 	flushStats()
+	if cleanup != nil {
+		cleanup()
+	}
 	os.Exit(code)
 }
 
